@@ -4,3 +4,5 @@ cd "$(dirname "$0")" || exit 2
 set -e
 (cd lean && rm -rf .lake/build && lake build 2>&1 | grep -v "^✔\|^ℹ" | tail -40)
 /venv/bin/python harness/audit.py --force 2>&1 | grep -v conda
+# obligations generated from the current source of /repo (warm the cache; the checks re-generate on every run)
+/venv/bin/python harness/translate.py 2>&1 | grep -v conda
